@@ -67,6 +67,31 @@ fn fe_machine(toks: &[&str]) -> R {
                 let a = pop!();
                 st.push(a.pow25523())
             }
+            // by-value operator impls exist only in the 32-bit backend; elsewhere the tokens use the by-reference ones
+            "addv" => {
+                let b = pop!();
+                let a = pop!();
+                #[cfg(feature = "force32")]
+                st.push(a + b);
+                #[cfg(not(feature = "force32"))]
+                st.push(&a + &b);
+            }
+            "subv" => {
+                let b = pop!();
+                let a = pop!();
+                #[cfg(feature = "force32")]
+                st.push(a - b);
+                #[cfg(not(feature = "force32"))]
+                st.push(&a - &b);
+            }
+            "mulv" => {
+                let b = pop!();
+                let a = pop!();
+                #[cfg(feature = "force32")]
+                st.push(a * b);
+                #[cfg(not(feature = "force32"))]
+                st.push(&a * &b);
+            }
             "ms121666" => {
                 let a = pop!();
                 st.push(cryptoxide::curve25519::verif::fe_mul_small_121666(&a))
@@ -97,6 +122,22 @@ fn fe_machine(toks: &[&str]) -> R {
                     return Err("fe-stack-underflow".into());
                 }
                 obs.push(obs_bool(st[n - 1] == st[n - 2]))
+            }
+            // != (and, on the 64-bit backend, the constant-time ct_ne / ct_eq impls behind it)
+            "ne" => {
+                let n = st.len();
+                if n < 2 {
+                    return Err("fe-stack-underflow".into());
+                }
+                #[cfg(not(feature = "force32"))]
+                {
+                    use cryptoxide::constant_time::CtEqual;
+                    let a = (&st[n - 1]).ct_ne(&st[n - 2]).is_true();
+                    let b = (&st[n - 1]).ct_eq(&st[n - 2]).is_false();
+                    obs.push(obs_bool(a && b && (st[n - 1] != st[n - 2])) + if a == b { "" } else { "!" });
+                }
+                #[cfg(feature = "force32")]
+                obs.push(obs_bool(st[n - 1] != st[n - 2]));
             }
             _ => {
                 if let Some(k) = t.strip_prefix("sqn:") {
@@ -247,6 +288,33 @@ pub fn dispatch(_m: &mut Machine, name: &str, args: &[&str]) -> Option<R> {
             let p: [u8; 32] = x25519::base(&n).into();
             Ok(hex(&p))
         })(),
+        // x25519_views <32 bytes>: the remaining conversions of the three wrapper types (AsRef<[u8]>, From<[u8;32]> for SharedSecret,
+        // Into<[u8;32]> for SecretKey, derived == on PublicKey): each must give back exactly the bytes put in
+        "x25519_views" => (|| {
+            need(args, 1)?;
+            let b = b32(args[0])?;
+            let sk = x25519::SecretKey::from(b);
+            let pk = x25519::PublicKey::from(b);
+            let ss = x25519::SharedSecret::from(b);
+            let a: &[u8] = sk.as_ref();
+            let c: &[u8] = pk.as_ref();
+            let d: &[u8] = ss.as_ref();
+            let mut o = String::new();
+            o.push_str(&hex(a));
+            o.push('.');
+            o.push_str(&hex(c));
+            o.push('.');
+            o.push_str(&hex(d));
+            o.push('.');
+            let mut b2 = b;
+            b2[7] ^= 1;
+            o.push_str(&obs_bool(pk == x25519::PublicKey::from(b)));
+            o.push_str(&obs_bool(pk == x25519::PublicKey::from(b2)));
+            let back: [u8; 32] = sk.into();
+            o.push('.');
+            o.push_str(&hex(&back));
+            Ok(o)
+        })(),
         // x25519 byte wrappers: TryFrom<&[u8]> accepts exactly 32 bytes
         "x25519_tryfrom" => (|| {
             need(args, 1)?;
@@ -331,6 +399,32 @@ pub fn dispatch(_m: &mut Machine, name: &str, args: &[&str]) -> Option<R> {
             need(args, 1)?;
             let d = cryptoxide::curve25519::verif::scalar_slide(&Scalar::from_bytes(&b32(args[0])?));
             Ok(hex(&d.iter().map(|x| *x as u8).collect::<Vec<u8>>()))
+        })(),
+        // the two scalar constants and the derived == / clone of Scalar
+        "sc_consts" => (|| {
+            let z = Scalar::ZERO;
+            let mut o = hex(&z.to_bytes());
+            #[cfg(not(feature = "force32"))]
+            {
+                o.push('.');
+                o.push_str(&hex(&Scalar::ONE.to_bytes()));
+            }
+            #[cfg(feature = "force32")]
+            {
+                o.push('.');
+                o.push_str(&hex(&Scalar::from_bytes(&{
+                    let mut b = [0u8; 32];
+                    b[0] = 1;
+                    b
+                })
+                .to_bytes()));
+            }
+            let a = Scalar::from_bytes(&[7u8; 32]);
+            let b = a.clone();
+            o.push('.');
+            o.push_str(&obs_bool(a == b));
+            o.push_str(&obs_bool(a == z));
+            Ok(o)
         })(),
         "sc_roundtrip" => (|| {
             need(args, 1)?;
